@@ -291,29 +291,51 @@ def compare(ctx, t, rows, build, stats):
     return cnt
 
 
-def run_curve(ctx, t, build, tier, stats, drv):
-    cmds = commands(t, tier, w32=build.startswith("w32") or build.endswith("w32"))
-    outp = ctx.path("exec_%s_%s.ndjson" % (t.name, build))
-    rc, _, err = vlib.run_harness(drv, ["exec"], stdin=cmds.encode(), out_path=outp, env={"VERIF_SEED": ctx.seed}, timeout=3000)
+BUILDS = {"asanrel": ("asanrel", []), "asanrel-w32": ("asanrel", ["-DBEE2_VERIF_W32"])}
+
+
+def read_rows(path):
     rows = []
-    for l in open(outp):
+    for l in open(path):
         l = l.strip()
         if l.endswith("}"):
             try:
                 rows.append(json.loads(l))
             except ValueError:
                 pass
+    return rows
+
+
+def run_curve(ctx, t, build, tier, stats, drv):
+    """Run the command stream of one curve with exact-size stacks.  A stop inside the library is a violation with
+    the crash site as key; the run is then repeated with slack on the stacks so that the values are still compared."""
+    cmds = commands(t, tier, w32=build.endswith("w32"))
+    outp = ctx.path("exec_%s_%s.ndjson" % (t.name, build))
+    env = {"VERIF_SEED": ctx.seed}
+    rc, _, err = vlib.run_harness(drv, ["exec"], stdin=cmds.encode(), out_path=outp, env=env, timeout=3000)
+    rows = read_rows(outp)
     if rc != 0:
         site = crash_site(err)
-        ctx.violation("crash:%s:%s:curve=%s" % (build, site, t.name), "drv_ec stopped inside the library on curve %s (%s build, rc=%d) after %d rows: %s"
-                      % (t.name, build, rc, len(rows), err[-1500:]), {"stderr": err[-4000:], "last_row": rows[-1] if rows else None})
+        overflow = "heap-buffer-overflow" in err
+        ctx.violation("crash:%s:%s:n=%d:%s" % ("stack-overflow" if overflow else "abort", site, (t.no * 8 + (31 if build.endswith("w32") else 63)) // (32 if build.endswith("w32") else 64),
+                                            "W32" if build.endswith("w32") else "W64"),
+                      "drv_ec stopped inside the library on curve %s (%s build, rc=%d) after %d rows, %s: %s"
+                      % (t.name, build, rc, len(rows), "a stack of exactly the documented depth was overrun" if overflow else "abort", err[-1500:]),
+                      {"curve": t.name, "stderr": err[-6000:], "last_row": rows[-1] if rows else None})
+        env["VERIF_STACK_SLACK"] = 256
+        rc, _, err = vlib.run_harness(drv, ["exec"], stdin=cmds.encode(), out_path=outp, env=env, timeout=3000)
+        rows = read_rows(outp)
+        if rc != 0:
+            ctx.violation("crash:%s:%s:curve=%s" % (build, crash_site(err), t.name), "drv_ec stopped inside the library on curve %s (%s build, stacks with slack, rc=%d): %s"
+                          % (t.name, build, rc, err[-1500:]), {"stderr": err[-6000:]})
     return rows
 
 
 def crash_site(err):
-    m = re.search(r"#\d+ 0x[0-9a-f]+ in (\w+) [^\n]*/src/([\w/\.]+):(\d+)", err)
-    if m:
-        return "%s@%s" % (m.group(1), m.group(2))
+    fr = re.findall(r"#\d+ 0x[0-9a-f]+ in (\w+) [^\n]*/src/([\w/\.]+):(\d+)", err)
+    fr = [f for f in fr if f[0] not in ("wwCopy", "wwSetZero", "memCopy", "memSet")]
+    if fr:
+        return "%s@%s" % (fr[0][0], fr[0][1])
     m = re.search(r"(\w+\.c):(\d+): (\w+): Assertion", err)
     if m:
         return "assert@%s:%s" % (m.group(1), m.group(3))
@@ -345,9 +367,9 @@ def run(ctx):
     vlib.log("[C06] tables of %d curves in %.0fs" % (len(tables), time.time() - t0))
     stats = {"bad": 0}
     compared = 0
-    builds = ["asan", "w32"]
+    builds = list(BUILDS)
 
-    drvs = {b: vlib.harness("drv_ec", ["drv_ec.c"], b) for b in builds}
+    drvs = {b: vlib.harness("drv_ec", ["drv_ec.c"], BUILDS[b][0], lib_extra=BUILDS[b][1]) for b in builds}
 
     def one(t, b):
         rows = run_curve(ctx, t, b, tier, stats, drvs[b])
